@@ -33,6 +33,9 @@ pub enum KeyShape {
     /// well-formed key document whose `guid` is a relative path: into a folder that does not exist / that exists (the log folder)
     GuidPathNew,
     GuidPathExisting,
+    /// well-formed key document whose key is valid hex of another size: 512 bits / 128 bits
+    Hex512,
+    Hex128,
 }
 
 #[derive(Default)]
@@ -81,6 +84,9 @@ pub struct HostState {
     /// ARRIVES that <guid>.key already exists there and holds exactly the issued guid and key
     pub guest_key_dir: Option<std::path::PathBuf>,
     pub attest_arrival_violations: Vec<String>,
+    /// hand out the same not-yet-attested key again on every further key request (as the in-tree server mock does)
+    pub reissue_pending: bool,
+    pub pending_issue: Option<(String, String, u64)>,
 }
 
 /// What the host does from the next poll on.
@@ -144,6 +150,8 @@ impl KeyHost {
                 quiet_polls: 0,
                 guest_key_dir: None,
                 attest_arrival_violations: Vec::new(),
+                reissue_pending: false,
+                pending_issue: None,
             })),
         }
     }
@@ -168,6 +176,8 @@ impl HostState {
         let h = hmacsha::sha256(format!("key-{}-{}", self.seed, self.key_counter).as_bytes());
         let g = hmacsha::hex_lower(&hmacsha::sha256(format!("guid-{}-{}", self.seed, self.key_counter).as_bytes()));
         let guid = format!("{}-{}-{}-{}-{}", &g[0..8], &g[8..12], &g[12..16], &g[16..20], &g[20..32]);
+        // every third key id is spelled in upper case (ids are opaque text; the host compares them as spelled)
+        let guid = if self.key_counter % 3 == 2 { guid.to_uppercase() } else { guid };
         let guid = match self.key_shape {
             KeyShape::GuidPathNew => format!("../exported/{}", guid),
             KeyShape::GuidPathExisting => format!("../logs/{}", guid),
@@ -177,6 +187,8 @@ impl HostState {
             KeyShape::Good | KeyShape::GuidPathNew | KeyShape::GuidPathExisting => hmacsha::hex_lower(&h).to_uppercase(),
             KeyShape::NonHex => format!("ZZ{}", &hmacsha::hex_lower(&h).to_uppercase()[2..]),
             KeyShape::OddLength => hmacsha::hex_lower(&h).to_uppercase()[1..].to_string(),
+            KeyShape::Hex512 => format!("{}{}", hmacsha::hex_lower(&h).to_uppercase(), hmacsha::hex_lower(&hmacsha::sha256(&h)).to_uppercase()),
+            KeyShape::Hex128 => hmacsha::hex_lower(&h).to_uppercase()[..32].to_string(),
         };
         (guid, key)
     }
@@ -257,11 +269,18 @@ impl HostState {
                 self.faults_consumed += 1;
                 return fault_response(&f);
             }
-            let (guid, key) = self.new_key();
+            let (guid, key, incarnation) = match (self.reissue_pending, self.pending_issue.clone()) {
+                (true, Some(p)) => p,
+                _ => {
+                    let (g, k) = self.new_key();
+                    (g, k, self.key_counter)
+                }
+            };
+            self.pending_issue = Some((guid.clone(), key.clone(), incarnation));
             self.issued.insert(guid.clone(), key.clone());
             self.delivered.push(key.clone());
             self.counters.acquire_ok += 1;
-            let body = serde_json::json!({"authorizationScheme": "Azure-HMAC-SHA256", "guid": guid, "incarnationId": self.key_counter, "issued": "2026-01-01T00:00:00Z", "key": key});
+            let body = serde_json::json!({"authorizationScheme": "Azure-HMAC-SHA256", "guid": guid, "incarnationId": incarnation, "issued": "2026-01-01T00:00:00Z", "key": key});
             return ResponseSpec::ok(serde_json::to_string(&body).unwrap().as_bytes()).with_header("Content-Type", json);
         }
         if r.method == "POST" && path.starts_with("/secure-channel/key/") && path.ends_with("/key-attestation") {
@@ -293,6 +312,7 @@ impl HostState {
             let ok = self.check_signature(r) == Some(true) && r.head.get("x-ms-azure-host-authorization").map(|a| String::from_utf8_lossy(a).contains(&guid)).unwrap_or(false);
             if ok {
                 self.latched = Some(guid);
+                self.pending_issue = None;
                 self.counters.attest_ok += 1;
                 if lose_reply {
                     return fault_response(&Fault::Reset);
